@@ -24,8 +24,10 @@ Specs (spec/metadata/, prefix ``Growth_``):
                                  refusal or None but never a time.  Three-valued: accept / refuse / unspecified.
   Growth_NexusMetadata.tla       (b) step machine: the entry is built item by item in any order and read by a procedure
                                  that walks the file in creation order; invariants Admitted, Delivers, OrderFree,
-                                 ReadsStable, CaseInsensitive, action property ReadsDoNotWrite.  Negative controls
-                                 (Bug): first, firstadmitted, ignorearg, swapids, endfromstart, tzdrop, case.
+                                 ReadsStable, CaseInsensitive, action property ReadsDoNotWrite.  Bounds in
+                                 Growth_MC_NexusMetadata.tla: quick 13 items / 4 per entry, thorough 28 items / 4 per
+                                 entry plus 13 items / 5 per entry (_deep.cfg).  Negative controls (Bug): first,
+                                 firstadmitted, ignorearg, swapids, endfromstart, tzdrop, case.
   Growth_Gen_NexusMetadata.tla   spec -> code: the rows of both tables with what they admit, the universe of the step
                                  machine, and (simulation) random build orders with the rows for their content.
   Growth_Trace_NexusMetadata.tla code -> spec: judge of every recorded read (table rows, build orders, seeded random
@@ -203,6 +205,24 @@ class _Par:
         time.sleep(0.03)
         return job
 
+    def chain(self, runs):
+        """Run several TLC jobs one after the other in ONE background thread (keeps the number of JVMs down)."""
+        job = {'res': None, 'exc': None, 'count': False, 'results': []}
+
+        def wrap():
+            try:
+                for module, cfg, kw in runs:
+                    job['results'].append(self.ctx.tlc(module, cfg, **{**kw, 'count': False}))
+                job['res'] = job['results'][-1] if job['results'] else None
+            except BaseException as e:  # noqa: BLE001
+                job['exc'] = e
+
+        job['t'] = threading.Thread(target=wrap, daemon=True)
+        job['t'].start()
+        self.jobs.append(job)
+        time.sleep(0.03)
+        return job
+
     def join(self, job):
         job['t'].join()
         if job['exc'] is not None:
@@ -314,7 +334,8 @@ class _Lab:
             if kind == 'group':
                 g = e.create_group(op['path'], track_order=track)
                 if op['cls']:
-                    g.attrs['NX_class'] = op['cls']
+                    # the class attribute in both spellings NeXus writers use (variable-length / fixed-length)
+                    g.attrs['NX_class'] = op['cls'] if op.get('attr', 'str') == 'str' else np.bytes_(op['cls'].encode())
             elif kind == 'name':
                 ds = self.write_string(e[op['path']], 'name', op['text'], op['sp'])
                 if op.get('short') is not None:
@@ -428,9 +449,6 @@ class _Lab:
             cand = direct[0] if len(direct) == 1 else None
         raw = raw_of[cand][0] if cand in raw_of else None
         obs = self.abstract_beamline(b, raw, short_of.get(cand))
-        if obs['name'] == 'other' and isinstance(b, self.M.Beamline):
-            # the name of some other group of the file?  (observation for the finding detail only)
-            pass
         rt = True
         try:
             C = self.M.Beamline
@@ -535,11 +553,11 @@ def _entry_ops(rng, strs, times):
     return ops, {k: t for k, t in texts.items() if t != ''}, ttexts
 
 
-def _group_ops(groups):
+def _group_ops(groups, attr_bytes=False):
     """groups: list of [gname, cls, nested, name]; parents first."""
     ops = []
     for g in sorted(groups, key=lambda g: (g['gname'].count('/'), g['gname'])):
-        ops.append({'op': 'group', 'path': g['gname'], 'cls': g['cls']})
+        ops.append({'op': 'group', 'path': g['gname'], 'cls': g['cls'], 'attr': 'bytes' if attr_bytes else 'str'})
     for g in groups:
         if g['name']['present']:
             ops.append(_name_op(g['gname'], g['name']))
@@ -1076,7 +1094,7 @@ def _random_part(lab, meta, n, family='random'):
     for _ in range(n):
         groups, extras, arg, strs, times = _random_entry(rng, meta)
         eops, texts, ttexts = _entry_ops(rng, strs, times)
-        plan = _group_ops(groups) + eops + extras
+        plan = _group_ops(groups, rng.random() < 0.4) + eops + extras
         order = _legal_order(rng, plan)
         alt = (_legal_order(rng, plan), rng.random() < 0.5) if rng.random() < 0.25 else None
         try:
@@ -1099,7 +1117,7 @@ def _table_part(lab, bl_rows, ms_rows, meta):
         rec = ms_rows[i] if i < len(ms_rows) else None
         plan, kw = [], {}
         if row is not None:
-            plan += _group_ops(row['groups'])
+            plan += _group_ops(row['groups'], i % 3 == 1)
             kw.update(groups=row['groups'], args=[row['arg']], rows=[row['row']])
         if rec is not None:
             eops, texts, ttexts = _entry_ops(rng, rec['strs'], rec['times'])
@@ -1159,7 +1177,7 @@ def run(ctx):
     t0 = time.time()
     th = ctx.thorough
     tmp = ctx.tmp
-    workers = int(os.environ.get('VERIF_GROWTH_WORKERS', '0') or 0) or (4 if th else 2)
+    workers = int(os.environ.get('VERIF_GROWTH_WORKERS', '0') or 0) or (3 if th else 2)
     files = {k: str(tmp / f'g07_{k}.ndjson') for k in ('bl', 'ms', 'universe', 'meta', 'trace')}
     ctx.assume(f'{PREFIX}: a refusal is any exception (no class is documented); instrument_name that names no '
                'NXinstrument child, fields that are not one string, empty / blank / padded names and the utcoffset of an '
@@ -1170,7 +1188,7 @@ def run(ctx):
     old_tz = os.environ.get('TZ')
     try:
         sfx = '_thorough' if th else ''
-        nsim = 600 if th else 40
+        nsim = 600 if th else 50
         gen = par.start(GEN, f'Growth_Gen_NexusMetadata{sfx}.cfg', workers=1, timeout=600, count=False,
                         simulate=f'num={nsim}', depth=40, extra=['-seed', str(ctx.seed + 7)],
                         env={'G07_BL': files['bl'], 'G07_MS': files['ms'], 'G07_UNIVERSE': files['universe'],
@@ -1179,7 +1197,7 @@ def run(ctx):
 
         # ---- code -> spec: seeded random entries far beyond the model (while TLC generates the tables), some of
         # them under a foreign local time zone
-        _random_part(lab, VOCAB, 2200 if th else 150)
+        _random_part(lab, VOCAB, 3000 if th else 200)
         if hasattr(time, 'tzset'):
             zones = ('Pacific/Chatham', 'America/St_Johns', 'Asia/Kathmandu')
             for zone in zones if th else (zones[ctx.seed % 3],):
@@ -1187,7 +1205,7 @@ def run(ctx):
                     os.environ['TZ'] = zone
                     time.tzset()
                     lab.tzlabel = zone
-                    _random_part(lab, VOCAB, 300 if th else 24, family='random_tz')
+                    _random_part(lab, VOCAB, 400 if th else 30, family='random_tz')
                 finally:
                     lab.tzlabel = ''
                     if old_tz is None:
@@ -1211,8 +1229,9 @@ def run(ctx):
         if len(builds) < nsim // 2:
             raise MachineryError(f'{PREFIX}: only {len(builds)} build orders were simulated')
         negs = NEGS if th else tuple(NEGS[(ctx.seed + i) % len(NEGS)] for i in (0, 1, 4))
-        for bug in negs:
-            par.start(SPEC, f'Growth_Neg_NexusMetadata_{bug}.cfg', workers=1, expect_error=True, timeout=300)
+        par.chain([(SPEC, f'Growth_Neg_NexusMetadata_{bug}.cfg', {'workers': 1, 'expect_error': True, 'timeout': 300})
+                   for bug in negs])
+        deep = par.start(SPEC, 'Growth_MC_NexusMetadata_deep.cfg', workers=2, timeout=900) if th else None
         marks['gen_wait_s'] = round(time.time() - t0, 1)
         path1 = _table_part(lab, bl_rows, ms_rows, meta)
         marks['table_s'] = round(time.time() - t0, 1)
@@ -1276,6 +1295,8 @@ def run(ctx):
                 seen.add(key)
             ctx.growth_finding(key, {'event': {k: v for k, v in ev.items() if k != 'tid'}, **info})
         require_ok(ctx, par.join(model), 'Growth_NexusMetadata model')
+        if deep is not None:
+            require_ok(ctx, par.join(deep), 'Growth_NexusMetadata model (five items)')
     finally:
         lab.close_all()
         try:
